@@ -41,6 +41,7 @@ func (p *Program) newExec(fi *FuncInfo) *Exec {
 		cntDefs: map[string]string{}, closures: map[types.Object]*ast.FuncLit{}, loopsUsed: map[int]bool{}, UsedContracts: map[string]bool{}, loopOrdOf: map[ast.Stmt]int{}}
 	if fi.C != nil {
 		e.mode = fi.C.IntMode
+		e.readKeys = map[string]bool{}
 		e.safety = fi.C.Safety || os.Getenv("GOVC_FORCE_SAFETY") != "" // the latter: exploratory no-panic sweep (govc dev only)
 	}
 	return e
@@ -291,6 +292,27 @@ func (p *Program) VerifyFunc(fi *FuncInfo) (res *FuncResult) {
 			e.frameObligations(final, c, sc)
 		}
 	}
+	// read frame: fields the code must not read
+	if os.Getenv("GOVC_READS") != "" {
+		for k := range e.readKeys {
+			fmt.Println("   read:", k)
+		}
+	}
+	for _, nr := range c.NoRead {
+		hit := ""
+		for k := range e.readKeys {
+			if strings.HasPrefix(k, "F:") && strings.HasSuffix(k, nr) {
+				if rest := strings.TrimSuffix(k, nr); rest == "F:" || strings.HasSuffix(rest, "_") || strings.HasSuffix(rest, ".") {
+					hit = k
+				}
+			}
+		}
+		goal := True
+		if hit != "" {
+			goal = False
+		}
+		e.Ctx.AddObligation(res.Func, "noread", fmt.Sprintf("%s/noread/%s", res.Func, nr), True, goal, fmt.Sprintf("%s:%d", c.File, c.Line))
+	}
 	e.popFrame()
 	for ord := range c.Loops {
 		if !e.loopsUsed[ord] {
@@ -303,6 +325,9 @@ func (p *Program) VerifyFunc(fi *FuncInfo) (res *FuncResult) {
 		}
 	}
 	e.addAxioms(res)
+	for n := range p.notes {
+		res.Unsupported = append(res.Unsupported, n)
+	}
 	res.Obligations = e.Ctx.Oblig
 	res.Unsupported = append(res.Unsupported, e.Unsup...)
 	for a := range e.Assumed {
